@@ -92,6 +92,23 @@ def rand_corrfunc_parts(rng, *, N=None, B=None, auto=None, mask=None, sparsity=N
     return dict(N=N, B=B, auto=auto, mask=mask, binning=binning, parts=parts)
 
 
+def negate_data_patch(case, p: int):
+    """the data sample's patch `p` carries NEGATIVE weights (a subtracted / down-weighted component): its row (and, for an
+    autocorrelation, column) of counts and its weight sums change sign consistently; leave-one-out sums can then be negative"""
+    auto = case["auto"]
+    for k, nc in list(case["parts"].items()):
+        c = nc.counts.counts.copy()
+        w1, w2 = nc.sum_weights.sum_weights1.copy(), nc.sum_weights.sum_weights2.copy()
+        if k in ("dd", "dr"):
+            c[:, p, :] *= -1
+            w1[:, p] *= -1
+        if auto and k in ("dd", "rd"):
+            c[:, :, p] *= -1
+            w2[:, p] *= -1
+        case["parts"][k] = make_nc(nc.binning, c, w1, w2, nc.auto)
+    return case
+
+
 def enc_cf(rid: str, case) -> str:
     p = case["parts"]
     toks = [rid, "cf", str(case["N"]), str(case["B"]), str(case["mask"]), enc_nc(p["dd"])]
